@@ -232,7 +232,7 @@ pub fn run(ctx: &Ctx) {
     );
     ctx.assume("acceptance is the engine's decision; the predicate needs no reference model");
     ctx.run_part("general", ctx.cases(10_000, 300_000), general, |c, o| check(ctx, c, o));
-    ctx.run_part("recursive_minmax", ctx.cases(600, 15_000), recursive_minmax, |c, o| check_in_child(ctx, c, o));
+    ctx.run_part("recursive_minmax", ctx.cases(600, 4_000), recursive_minmax, |c, o| check_in_child(ctx, c, o));
 }
 
 pub fn replay(ctx: &Ctx, part: &str, case: &J) -> Option<Result<CheckResult, String>> {
